@@ -90,6 +90,27 @@ def storage_word_slices(ctx, rid, fxs=None):
            "" if ok else f"{[(a.t, a.v, a.gtext()) for a in fxs.find(domain='sync')]}", plain[0].line if plain else 0)
 
 
+def last_word_strobes(ctx, rid, fxs=None, fxt=None):
+    """The register-level strobes of a multi-word CSR follow the word at the LAST bus address (the loop variable after the word loop):
+    CSRStorage.re, CSRStatus.we / re.  Shared with C14: the generated accessors write the words in ascending address order and rely
+    on the write taking effect with the last one."""
+    from ..fx import FX
+    if fxs is None and fxt is None:
+        fxs = FX(ctx, CSR, cls="CSRStorage", entries=("__init__", "do_finalize"))
+        fxt = FX(ctx, CSR, cls="CSRStatus", entries=("__init__", "do_finalize"))
+    if fxs is not None:
+        re_ = fxs.find(domain="sync", target="self.re")
+        ok = len(re_) == 1 and re_[0].v == "sc.re" and not re_[0].guards and not re_[0].loops
+        ctx.ob(rid, CSR, "CSRStorage.do_finalize", "re = registered strobe of the last iterated word", ok, "" if ok else f"{[(a.v, a.loops) for a in re_]}")
+    if fxt is not None:
+        we = fxt.find(domain="comb", target="self.we")
+        ok = len(we) == 1 and we[0].v == "sc.we" and not we[0].loops
+        ctx.ob(rid, CSR, "CSRStatus.do_finalize", "we = read strobe of the last iterated word", ok, "" if ok else f"{[a.v for a in we]}")
+        re_ = fxt.find(domain="sync", target="self.re")
+        ok = len(re_) == 1 and re_[0].v == "sc.re" and not re_[0].guards
+        ctx.ob(rid, CSR, "CSRStatus.do_finalize", "re = registered write strobe", ok, "" if ok else f"{[a.v for a in re_]}")
+
+
 def status_write_latch(ctx, rid, fxt=None):
     """Writable CSRStatus (shared with C15: EventManager.pending): `r` takes the bus data only in the cycle of the write strobe and
     `re` is that strobe one cycle later -- `re & r[i]` then means "a one was written to bit i".  Without the strobe on the latch `r`
@@ -251,9 +272,7 @@ def run(ctx):
         _i_nonzero(cm[0].pyguards) is False
     ctx.ob("R2", CSR, "CSRStorage.do_finalize", "atomic: word 0 commits Cat(sc.r, backstore) under its strobe", ok,
            "" if ok else f"{[(a.v, a.gtext(), a.pyguards) for a in cm]}", cm[0].line if cm else 0)
-    re_ = fxs.find(domain="sync", target="self.re")
-    ok = len(re_) == 1 and re_[0].v == "sc.re" and not re_[0].guards and not re_[0].loops
-    ctx.ob("R2", CSR, "CSRStorage.do_finalize", "re = registered strobe of the last iterated word", ok, "" if ok else f"{[(a.v, a.loops) for a in re_]}")
+    last_word_strobes(ctx, "R2", fxs=fxs)
     dev = [a for a in fxs.find(domain="sync", target="self.storage") if a.v == "self.dat_w"]
     ok = len(dev) == 1 and q.EQ(dev[0], B.A("self.we")) and ("write_from_dev", True) in dev[0].pyguards
     ctx.ob("R2", CSR, "CSRStorage.__init__", "device write: separate assignment under self.we", ok, "" if ok else f"{[(a.v, a.gtext()) for a in dev]}")
@@ -273,12 +292,7 @@ def run(ctx):
     ok = len(rd) == 1 and rd[0].v == "self.status[i * busword:i * busword + nbits]"
     ctx.ob("R2", CSR, "CSRStatus.do_finalize", "word i reads status[i*busword : +nbits]", ok, "" if ok else f"{[a.v for a in rd]}")
     status_write_latch(ctx, "R2", fxt)
-    we = fxt.find(domain="comb", target="self.we")
-    ok = len(we) == 1 and we[0].v == "sc.we" and not we[0].loops
-    ctx.ob("R2", CSR, "CSRStatus.do_finalize", "we = read strobe of the last iterated word", ok, "" if ok else f"{[a.v for a in we]}")
-    re_ = fxt.find(domain="sync", target="self.re")
-    ok = len(re_) == 1 and re_[0].v == "sc.re" and not re_[0].guards
-    ctx.ob("R2", CSR, "CSRStatus.do_finalize", "re = registered write strobe", ok, "" if ok else f"{[a.v for a in re_]}")
+    last_word_strobes(ctx, "R2", fxt=fxt)
     # both classes iterate the words in the same ordering-dependent way and register every simple CSR
     cm_ = ctx.mod(CSR)
     for cls in ("CSRStorage", "CSRStatus"):
